@@ -561,10 +561,23 @@ func ruleChannelTeardown(c *Ctx, m *termModel, rule string) {
 	}
 	nPaths := 0
 	bad := map[string]string{}
+	writerSelf, readerSelf := true, true
+	if rwf := c.FnOpt("root", "Channel.runWriter"); rwf != nil {
+		writerSelf = len(selfInitiatedReturns(m, rwf)) > 0
+	}
+	if rrf := c.FnOpt("root", "Channel.runReader"); rrf != nil {
+		readerSelf = len(selfInitiatedReturns(m, rrf)) > 0
+	}
 	okEnum := enumPaths(sel.Block(), nil, 2000, func(path []*ssa.BasicBlock) {
 		last := path[len(path)-1]
 		if isPanicBlock(last) {
 			return
+		}
+		// a select case on the result of a worker that never ends on its own cannot fire first
+		if t := selectTaken(sel, path); t >= 0 {
+			if a := rootAlloc(sel.States[t].Chan); (a == writerCh && !writerSelf) || (a == readerCh && !readerSelf) {
+				return
+			}
 		}
 		nPaths++
 		var ev []string
